@@ -56,7 +56,7 @@ def theorems_in(module: str) -> list[str]:
         if m and ns and ns[-1] == m.group(1):
             ns.pop()
             continue
-        m = re.match(r"\s*(?:@\[[^\]]*\]\s*)*(?:private\s+|protected\s+)?(?:theorem|lemma)\s+([A-Za-z0-9_.'!?]+)", line)
+        m = re.match(r"\s*(?:@\[[^\]]*\]\s*)*(?:private\s+|protected\s+)?(?:theorem|lemma)\s+([^\s({\[:]+)", line)
         if m and not line.lstrip().startswith("private"):
             name = m.group(1)
             out.append(".".join(ns + [name]) if not name.startswith("_root_.") else name[7:])
